@@ -19,7 +19,7 @@ func main() {
 		th := tier == "thorough"
 		switch *prop {
 		case "C18":
-			return append(c18HTTPScenarios(th), c18Scenarios(th)...)
+			return append(append(c18HTTPScenarios(th), c18FaultScenarios(th)...), c18Scenarios(th)...)
 		case "C17":
 			return c17Scenarios(th)
 		case "C19":
